@@ -199,7 +199,8 @@ def run_one(ck, prog):
                         wraps.append((p4, span_str(st4["sp"]), show(e4)[:100]))
     ck.ob("C16.1", "buffer-supplied-length-never-subtracted", not wraps, fn=wraps[0][0] if wraps else None, site=wraps[0][1] if wraps else None,
           detail=f"a difference with cmsg_len as subtrahend: {[w[2] for w in wraps]}; it wraps for a message longer than the remaining control data")
-    ck.floor("C16.1", "subtractions in the control-message code", n_sub, 3)
+    if ck.config != "C":      # without `alloc` the control-message code is not compiled (see the note above)
+        ck.floor("C16.1", "subtractions in the control-message code", n_sub, 3)
     # sending: the control buffer is sized from the bytes that are then copied into it - cmsg_space(size_of_val(fds)), the same byte count
     # the copy uses (sizing it by the NUMBER of descriptors agrees for one or two of them and overflows the buffer from three on)
     cs = [f for p2, f in prog.fns.items() if p2.startswith("rusl::platform::compat::socket::MsgHdrBorrow") and p2.endswith("::create_send")]
